@@ -35,6 +35,15 @@ func runC02(c *Ctx) {
 		}
 	}
 
+	// the revision everything is encoded with is the negotiated one (rule group of C13)
+	if hs := p.Method(core.PkgCh, "Client", "handshake"); hs != nil {
+		for _, a := range hs.AnonFuncs {
+			if core.ReachesCallee(a, isClientMethod("packet"), 1) {
+				ruleNegotiatedMin(c, p, "C02.min", a)
+			}
+		}
+	}
+
 	// ---- C02.order
 	rule := "C02.order"
 	c.R.Rule(rule, "path rules over sendQuery and the sender goroutine: the Query packet is encoded first and once; the external-data block is encoded only when external data is given and before the terminator; every success exit of sendQuery has passed exactly one empty terminator block after the query; the sender flushes after sendQuery and (C09) after the input stream; errors of each step are honoured")
@@ -637,6 +646,7 @@ func runC02(c *Ctx) {
 	ruleMethodTable(c, p, "C02.methods")
 	ruleDict(c, p, "C02.dict")
 	ruleVersionArgs(c, p, "C02.version")
+	ruleTableLookups(c, p, "C02.tables")
 	rb := p.Method(core.PkgCompress, "Reader", "readBlock")
 	wr := p.Method(core.PkgCompress, "Writer", "Compress")
 	if rb != nil && wr != nil {
